@@ -339,6 +339,48 @@ void Act<SiteIdx>::operator()(Ev const& e, Fsm& fsm, S&, T&) const {
     after_callback('A', site, fsm, true);
 }
 
+// member-function behaviours (basic / row2 / internal front-end families, C14): 'fe' is the front-end
+// subobject of the machine; no scripted submissions or in-callback reads here, failpoints only
+template <class Ev, class FE>
+void member_record(const char* kind, const char* site, Ev const& e, FE& fe, int v = -1) {
+    std::string s;
+    s += kind; s += ' '; s += site; s += ' ';
+    s += inst_tag(&fe); s += ':'; s += FE::vf_mname(); s += ' ';
+    s += evdesc(e); s += ' ';
+    char tmp[48]; snprintf(tmp, sizeof tmp, "%d %d", st().depth, v);
+    s += tmp;
+    tr().line(s);
+}
+inline void member_tick() {
+    State& S = st();
+    if (S.fail_armed) {
+        if (S.fail_after == 0) {
+            S.fail_armed = false;
+            int seq = ++S.fail_seq;
+            char tmp[64]; snprintf(tmp, sizeof tmp, "THROW %d", seq);
+            tr().line(tmp);
+            throw Injected(seq);
+        }
+        --S.fail_after;
+    }
+}
+template <int Atom, int SiteIdx, class Ev, class FE> bool member_guard(Ev const& e, FE& fe) {
+    const SiteInfo& si = guard_site(SiteIdx);
+    bool v = si.cg_src ? cgval(Atom, si.cg_src) : gval(Atom);
+    DepthGuard dg;
+    member_record("G", si.name, e, fe, v ? 1 : 0);
+    { std::string key("G"); key += si.name; ++st().calls[key]; }
+    member_tick();
+    return v;
+}
+template <class Ev, class FE> void member_action(int site_idx, Ev const& e, FE& fe) {
+    const char* site = action_site(site_idx);
+    DepthGuard dg;
+    member_record("A", site, e, fe);
+    { std::string key("A"); key += site; ++st().calls[key]; }
+    member_tick();
+}
+
 // entry / exit bodies used by every generated state and front-end
 template <class Ev, class Fsm> void on_entry_cb(const char* site, Ev const& e, Fsm& fsm) {
     ++st().entries[site];
